@@ -12,9 +12,11 @@ package limit_test
 // (tokens, last second) written from that sentence; the harness clock is the explicit `now`
 // of AllowN and, in step, miniredis' FastForward.
 // Unreachable store (server answering errors, client-side command failures, or a really
-// closed server): per instance, the grants of one outage episode must satisfy
-// sum(n) <= burst + rate x elapsed over every sub-interval (a one-directional bound; no
-// answer is demanded).  After the store is back the harness waits for the limiter's 100 ms
+// closed server): per instance, ALL grants it answered on its own (store unreachable at that
+// call) over the whole history — however many outage episodes they are spread over — must
+// satisfy sum(n) <= burst + rate x elapsed over every sub-interval [t_i, t_j] of grant times
+// ("that same bound": never more than burst + rate x elapsed over ANY interval; a
+// one-directional bound, no answer is demanded).  After the store is back the harness waits for the limiter's 100 ms
 // ping loop (observed through the verif accessor VerifAlive, generous wall-clock budget,
 // overrun = inconclusive) and goes on comparing with the reference bucket.
 
@@ -84,8 +86,11 @@ type c03Grant struct {
 type c03TInst struct {
 	lim     *limit.TokenLimiter
 	local   bool       // the harness put it into an outage episode
-	grants  []c03Grant // local grants of the running episode
+	grants  []c03Grant // every grant it answered locally, whole history, time-ordered
 	granted int        // joint grants (bookkeeping)
+	episode int        // outage episodes it took part in so far (bookkeeping)
+	grantEp int        // episodes in which it granted locally (bookkeeping)
+	epGrant bool       // granted locally in the running episode
 }
 
 type c03TWorld struct {
@@ -156,21 +161,29 @@ func (w *c03TWorld) call(in *c03TInst, n int, ctx bool) bool {
 	return in.lim.AllowN(now, n)
 }
 
-// localGrant checks the per-instance bound over every sub-interval of the episode that
-// ends with the newest grant.
+// localGrant checks the per-instance bound over every interval [t_j, now] of local grant
+// times of the WHOLE history (earlier intervals were checked when their last grant was
+// made), across outage episodes.
 func (w *c03TWorld) localGrant(i int, n int) {
 	in := w.inst[i]
 	in.grants = append(in.grants, c03Grant{w.now, n})
 	w.localGrants++
+	if !in.epGrant {
+		in.epGrant = true
+		in.grantEp++
+	}
 	sum := 0
 	for j := len(in.grants) - 1; j >= 0; j-- {
 		sum += in.grants[j].n
+		if j > 0 && in.grants[j-1].t == in.grants[j].t {
+			continue // same instant: the interval starts at the first grant of that instant
+		}
 		el := float64(w.now-in.grants[j].t) / 1000
 		bound := float64(w.burst) + float64(w.rate)*el
 		// x/time/rate rounds the refill interval to whole ns: relative slack 1e-6 is ample
 		if float64(sum) > bound*(1+1e-6)+1e-6 {
-			w.fail("store unreachable: instance %d granted %d tokens within %.3f s (grants %v), bound burst + rate x elapsed = %.3f",
-				i, sum, el, in.grants[j:], bound)
+			w.fail("store unreachable: instance %d granted %d tokens on its own within %.3f s, spread over %d outage episode(s) (local grants {t ms, n}: %v), bound burst + rate x elapsed = %.3f",
+				i, sum, el, in.grantEp, in.grants[j:], bound)
 		}
 	}
 }
@@ -258,7 +271,7 @@ func (w *c03TWorld) waitAlive(idx []int) {
 	for {
 		all := true
 		for _, i := range idx {
-			if !w.inst[i].lim.VerifAlive() {
+			if !w.inst[i].lim.VerifAlive() || w.inst[i].lim.VerifMonitoring() {
 				all = false
 			}
 		}
@@ -279,8 +292,9 @@ func (w *c03TWorld) waitAlive(idx []int) {
 		in := w.inst[i]
 		if in.local {
 			w.recovered++
+			in.episode++
 		}
-		in.local, in.grants = false, nil
+		in.local, in.epGrant = false, false // in.grants is kept: the bound spans episodes
 	}
 	w.logf(" recovered%v", idx)
 }
@@ -301,6 +315,28 @@ func c03NoRecovery(tt *testing.T, st *verifkit.Stats) {
 	st.Flush()
 	fmt.Printf("INCONCLUSIVE: C03 outage: 0 of %d recoveries completed within the wall-clock budget\n", c03RecTried)
 	os.Exit(3)
+}
+
+// classEpisodes records how far the case spread local grants over outage episodes.
+func (w *c03TWorld) classEpisodes() {
+	maxEp, differ := 0, false
+	for _, in := range w.inst {
+		if in.grantEp > maxEp {
+			maxEp = in.grantEp
+		}
+		if in.episode != w.inst[0].episode {
+			differ = true
+		}
+	}
+	if maxEp >= 2 {
+		w.st.Class("case:one-instance-granted-locally-in->=2-episodes")
+	}
+	if maxEp >= 3 {
+		w.st.Class("case:one-instance-granted-locally-in->=3-episodes")
+	}
+	if differ {
+		w.st.Class("case:instances-saw-different-episodes")
+	}
 }
 
 func (w *c03TWorld) all() []int {
@@ -454,7 +490,7 @@ func TestVerifC03TokenOutage(t *testing.T) {
 		st.Eval()
 		e := c03Server(t)
 		e.mr.FlushAll()
-		e.pad(40)
+		e.pad(80)
 		rate, burst := c03DrawConfig(t, st)
 		k := rapid.IntRange(1, 4).Draw(t, "instances")
 		w := c03NewTWorld(t, st, e, rate, burst, k, c03DrawT0(t))
@@ -463,7 +499,7 @@ func TestVerifC03TokenOutage(t *testing.T) {
 		outages := 0
 		acts["down"] = func(t *rapid.T) {
 			w.guard(func() {
-				if w.down || outages >= 2 {
+				if w.down || outages >= 4 {
 					return
 				}
 				outages++
@@ -498,6 +534,50 @@ func TestVerifC03TokenOutage(t *testing.T) {
 				w.waitAlive(w.all())
 			})
 		}
+		acts["flap"] = func(t *rapid.T) {
+			// 2-4 outage episodes in quick succession: in each one a (drawn) subset of the
+			// instances drains its local bucket and asks again; the store comes back just
+			// long enough for the ping loops to notice, and goes down again well before
+			// burst/rate seconds of harness time have passed.
+			eps := rapid.IntRange(2, 4).Draw(t, "episodes")
+			type ep struct {
+				mask int
+				gap  int64
+				ns   []int
+			}
+			plan := make([]ep, eps)
+			for x := range plan {
+				plan[x] = ep{
+					mask: rapid.IntRange(1, 1<<k-1).Draw(t, "who"),
+					gap:  rapid.SampledFrom([]int64{0, 0, 1, 7, 50, 300, 1000}).Draw(t, "gap"),
+					ns:   rapid.SliceOfN(rapid.SampledFrom([]int{burst, burst, 1, 1, (burst + 1) / 2, 0, burst + 1}), 2, 4).Draw(t, "ns"),
+				}
+			}
+			w.guard(func() {
+				if w.down || outages+eps > 4 {
+					return
+				}
+				for _, p := range plan {
+					outages++
+					w.down = true
+					e.down.Store(true)
+					w.logf(" DOWN")
+					for i := 0; i < k; i++ {
+						if p.mask&(1<<i) == 0 {
+							continue
+						}
+						for _, n := range p.ns {
+							w.allowN(i, n, false, c03FaultNone)
+						}
+					}
+					w.down = false
+					e.down.Store(false)
+					w.logf(" UP")
+					w.waitAlive(w.all())
+					w.advance(p.gap)
+				}
+			})
+		}
 		acts["glitch"] = func(t *rapid.T) {
 			// one command of one instance fails while the store is fine
 			i, n := pickI.Draw(t, "inst"), c03DrawN(t, w)
@@ -522,6 +602,7 @@ func TestVerifC03TokenOutage(t *testing.T) {
 		if w.localGrants > 0 {
 			st.Class("case:local-grants")
 		}
+		w.classEpisodes()
 		if w.localGrants > 0 && w.recovered > 0 && w.afterRecovery > 0 {
 			st.Class("case:nontrivial")
 			st.NonTrivial(w.log.String())
@@ -560,7 +641,7 @@ func TestVerifC03TokenOutageReal(t *testing.T) {
 			e.closed.Store(false)
 		}
 		e.mr.FlushAll()
-		e.pad(150)
+		e.pad(300)
 		rate, burst := c03DrawConfig(t, st)
 		k := rapid.IntRange(1, 3).Draw(t, "instances")
 		w := c03NewTWorld(t, st, e, rate, burst, k, c03DrawT0(t))
@@ -579,7 +660,16 @@ func TestVerifC03TokenOutageReal(t *testing.T) {
 			}
 			return ops
 		}
-		before, during, after := drawOps("before", 1, 6), drawOps("during", 2, 10), drawOps("after", 2, 8)
+		cycles := rapid.IntRange(1, 3).Draw(t, "cycles")
+		before, after := drawOps("before", 1, 6), drawOps("after", 2, 8)
+		during := make([][]op, cycles)
+		between := make([][]op, cycles)
+		for c := range during {
+			during[c] = drawOps("during", 2, 8)
+			// little or nothing between two outages: the next one starts well before the
+			// local bucket would have refilled
+			between[c] = drawOps("between", 0, 2)
+		}
 		run := func(ops []op) {
 			for _, o := range ops {
 				w.allowN(o.i, o.n, false, c03FaultNone)
@@ -588,23 +678,29 @@ func TestVerifC03TokenOutageReal(t *testing.T) {
 		}
 		w.guard(func() {
 			run(before)
-			e.closed.Store(true)
-			e.mr.Close()
-			w.down = true
-			w.logf(" CLOSE")
-			run(during)
-			if err := e.mr.Restart(); err != nil {
-				// somebody else took the port meanwhile
-				c03RealErr = fmt.Errorf("restart: %w", err)
-				w.abort("miniredis could not be restarted on its port: %v", err)
+			for c := 0; c < cycles; c++ {
+				e.closed.Store(true)
+				e.mr.Close()
+				w.down = true
+				w.logf(" CLOSE")
+				run(during[c])
+				if err := e.mr.Restart(); err != nil {
+					// somebody else took the port meanwhile
+					c03RealErr = fmt.Errorf("restart: %w", err)
+					w.abort("miniredis could not be restarted on its port: %v", err)
+				}
+				e.installPreHook()
+				e.closed.Store(false)
+				w.down = false
+				w.logf(" RESTART")
+				w.waitAlive(w.all())
+				if c < cycles-1 {
+					run(between[c])
+				}
 			}
-			e.installPreHook()
-			e.closed.Store(false)
-			w.down = false
-			w.logf(" RESTART")
-			w.waitAlive(w.all())
 			run(after)
 		})
+		w.classEpisodes()
 		if w.dead {
 			return
 		}
